@@ -163,9 +163,13 @@ class LRUTrieNode(object):
             # BST comparison (probably overkill)
             if self.has_tail():
                 chunks = []
+                tail_block = block
 
                 while True:
-                    data = struct.unpack(LRU_TRIE_NODE_FORMAT, self.storage.read())
+                    tail_block += LRU_TRIE_NODE_BLOCK_SIZE
+                    data = struct.unpack(
+                        LRU_TRIE_NODE_FORMAT, self.storage.read(tail_block)
+                    )
                     chars = data[LRU_TRIE_NODE_STEM]
 
                     chunks.append(chars)
